@@ -79,7 +79,13 @@ fn render(l: &[Q], out: &mut String) {
             Q::If(c, b) => { out.push_str(&format!("if (x < {}) {{\n", c)); render(b, out); out.push_str("}\n"); }
             Q::IfElse(c, a, b) => { out.push_str(&format!("if (x < {}) {{\n", c)); render(a, out); out.push_str("} else {\n"); render(b, out); out.push_str("}\n"); }
             Q::While(c, b) => { out.push_str(&format!("while (x < {}) {{\n", c)); render(b, out); out.push_str("}\n"); }
-            Q::For(i, c, st, b) => { out.push_str(&format!("for (var i = {}; i < {}; i += {}) {{\n", i, c, st)); render(b, out); out.push_str("}\n"); }
+            // both grammar rules for `for`: the initialisation is a declaration, or an assignment to a declared variable
+            Q::For(i, c, st, b) => {
+                if i % 2 == 0 { out.push_str(&format!("for (var i = {}; i < {}; i += {}) {{\n", i, c, st)); }
+                else if i % 4 == 1 { out.push_str(&format!("for (k = {}; k < {}; k += {}) {{\n", i, c, st)); }
+                else { out.push_str(&format!("for (k = {}; k < {}; k = k + {}) {{\n", i, c, st)); }
+                render(b, out); out.push_str("}\n");
+            }
         }
     }
 }
@@ -157,7 +163,7 @@ pub fn paths_bounded(tier: &str) {
             let q = label(&l, &mut next);
             let mut body = String::new();
             render(&q, &mut body);
-            let src = format!("function f(x) {{\nvar y = 0;\nvar arr[2];\n{}return y;\n}}\n", body);
+            let src = format!("function f(x) {{\nvar y = 0;\nvar k = 0;\nvar arr[2];\n{}return y;\n}}\n", body);
             evals += 1;
             if body.contains("while") || body.contains("if") || body.contains("for") { nontrivial += 1; }
             if evals % 1499 == 1 && samples.len() < 6 { samples.push(jstr(&src)); }
